@@ -189,7 +189,10 @@ Lemma servername_under_interleaving sched ss :
              Forall (fun n => n = c_domain (s_cfg s0)) (server_names (m_tr (pstate (is_prog s)))) /\
              (forall r, is_prog s = Done r -> r = run_sess None s0))
           ss (snd out).
-Proof. exact (interleaved_sessions sched None ss). Qed.
+Proof.
+  intro out. destruct (interleaved_sessions sched None ss) as (H1 & H2). split; [exact H1|].
+  eapply Forall2_imp; [|exact H2]. intros s0 s (A & B & _). auto.
+Qed.
 
 Lemma interleaving_changes_nothing sched fv ss :
   let out := sched_run sched fv (map (start_sess fv) ss) in
@@ -198,7 +201,33 @@ Lemma interleaving_changes_nothing sched fv ss :
              Forall (fun n => n = name_for (s_cfg s0) fv) (server_names (m_tr (pstate (is_prog s)))) /\
              (forall r, is_prog s = Done r -> r = run_sess fv s0))
           ss (snd out).
-Proof. exact (interleaved_sessions sched fv ss). Qed.
+Proof.
+  intro out. destruct (interleaved_sessions sched fv ss) as (H1 & H2). split; [exact H1|].
+  eapply Forall2_imp; [|exact H2]. intros s0 s (A & B & _). auto.
+Qed.
+
+(* whatever the other sessions sharing the Negotiator value (and the feature
+   value) have done, in whatever order: a session's next features list is
+   treated as its first one exactly when the session itself has not negotiated
+   one before *)
+Lemma first_list_per_session sched fv ss :
+  Forall (fun s => match is_prog s with
+                   | Running l => next_first l = Nat.eqb (l_calls l) 0
+                   | Done _ => True
+                   end)
+         (snd (sched_run sched fv (map (start_sess fv) ss))).
+Proof.
+  destruct (interleaved_sessions sched fv ss) as (_ & H2).
+  induction H2 as [|s0 s l0 l (_ & _ & Hf) _ IH]; constructor; [exact Hf|exact IH].
+Qed.
+
+(* negotiator.go: the closure returned by negotiator() assigns to no captured
+   variable but cfg, the stream configuration its user's function returns at
+   each call; in particular nothing like "a features list has been seen" is
+   kept in the Negotiator value *)
+Lemma negotiator_closure_writes_only_cfg :
+  forallb (fun v => bytes_eqb v (str "cfg")) negotiator_writes = true.
+Proof. vm_compute. reflexivity. Qed.
 
 Lemma no_step_writes_captured c m m' : evolves c m m' -> m_fv m' = m_fv m.
 Proof.
